@@ -166,7 +166,7 @@ Proof.
       { unfold c1. simpl. rewrite Hdocs. apply store_set_at; [|exact Hkk].
         rewrite Hdocs in HK. exact (proj1 (knd_mid _ _ _ _ HK)). }
       destruct (ensure_uniques c1 d') as [touched|e].
-      2:{ destruct e; try discriminate. destruct (expire c1); discriminate. }
+      2:{ destruct e; try discriminate; destruct (expire c1); discriminate. }
       rewrite (expire_if_no_ttl touched c1 (no_ttl_with_docs c _ HT)) in H.
       destruct multi.
       * assert (HK1 : knd (skeys (docs c1))).
